@@ -30,6 +30,7 @@ class Unit:
         self.no_companion = set()   # normalised rendered impl headers that get no auto companion
         self.from_given = set()     # rendered `impl From<..> for ..` headers whose FromSpecImpl the unit supplies
         self.module_prologue = []   # lines emitted at the top of every module (broadcast use ...)
+        self.anchors = {}           # contract tag -> (module path, impl header, fn name, nth): used by the differential replay
 
     # ---- selection -------------------------------------------------------------------------
     def take(self, path, header, fn, contract=None, mode='R', nth=0, tparams=('T',)):
@@ -47,6 +48,7 @@ class Unit:
         if contract.tag is None:
             contract.tag = '%s/%s' % (self._short(path, header), fn)
         lst.append((f, contract))
+        self.anchors[contract.tag] = (path, header, fn, nth, contract)
         if contract.external_body:
             self.assumed.append(anchor)
         elif not bare or ' for ' in norm(header).replace('for<', ''):
